@@ -68,6 +68,32 @@ def gen(tier, rng):
                     for var in VARIANTS:
                         out.append((P.line(var, iv, None, tmo, ex, req_ok, [t0] + readings, sc),
                                     "%s/%s" % (name, "to-none" if tmo is None else "to-set")))
+    # integers that are new in the source (gen/srclit.py): as caller timeout and as lifetime (seconds, milliseconds), with clocks
+    # that read just before and just after start + n seconds, and as the number of non-decisive replies
+    from gen import srclit as S
+    for n in S.sizes(limit=P.U64, lo=0):
+        for unit in (P.NS, 10 ** 6):
+            span = n * unit
+            for (tmo, ex) in ((None, n if unit == P.NS else max(n // 1000, 1)), (span, 600), (None, 10 * n + 7), (20 * span + P.NS, 7)):
+                for t0 in (0, 1700000000 * P.NS + 123456789):
+                    dl = deadline(t0, tmo, ex)
+                    if dl is None:
+                        continue
+                    for s in ([], ["pending"], ["slow", "fail"], ["pending", "pending", "pending"]):
+                        sc = s + ["success"]
+                        k = len(sc) + 1
+                        shapes = [("at-n", [min(dl, t0 + span)] * k), ("before-n", [min(dl, max(t0, t0 + span - 1))] * k), ("after-n", [min(P.DTMAX, t0 + span + 1)] * k),
+                                  ("after-n-late", [t0] * (k - 1) + [min(P.DTMAX, t0 + span + 1)]), ("steady-n", [min(P.DTMAX, t0 + (j + 1) * span) for j in range(k)]),
+                                  ("deadline", [dl] * k), ("past-deadline", [t0] * (k - 1) + [min(P.DTMAX, dl + 1)])]
+                        for name, readings in shapes:
+                            for var in VARIANTS:
+                                i += 1
+                                out.append((P.line(var, P.INTERVALS[i % 6], None, tmo, ex, True, [t0] + readings, sc), "source-literal/%s" % name))
+        if 1 <= n <= 300:
+            for kk in P.NONDEC:
+                for m in (n - 1, n, n + 1):
+                    for var in VARIANTS:
+                        out.append((P.line(var, "1", None, None, 10 ** 7, True, [0] + [j * P.NS for j in range(m + 2)], [kk] * m + ["success"]), "source-literal/script-length"))
     return out
 
 
